@@ -152,8 +152,13 @@ impl Complex {
 			let rem = rhs.clone().real.modulo(4.into(), int);
 			// Reduced case: (ix)^y = x^y * i^y
 			if self.real.is_zero() && rhs.imag.is_zero() {
-				if let Ok(n) = rhs.real.try_as_usize(int) {
+				if let Ok(n) = rhs.real.clone().try_as_usize(int) {
 					return self.pow_n(n, int);
+				}
+				// negative integer exponent: z^-n = 1 / z^n
+				if let Ok(n) = rhs.real.clone().neg().try_as_usize(int) {
+					let positive_power = self.pow_n(n, int)?;
+					return Exact::new(Self::from(1), true).div(positive_power, int);
 				}
 
 				let mut result = Exact::new(
@@ -171,7 +176,8 @@ impl Complex {
 							real: 0.into(),
 							imag: Real::from(1).neg(),
 						},
-						Ok(_) | Err(_) => unreachable!("modulo 4 should always be 0, 1, 2, or 3"),
+						Ok(_) => unreachable!("modulo 4 should always be 0, 1, 2, or 3"),
+						Err(e) => return Err(e),
 					},
 					true,
 				);
